@@ -98,6 +98,38 @@ Theorem c03_setop_arity_kept_refuted : Sorts.arity_kept false [4%nat] [0%nat] = 
 Proof. vm_compute. reflexivity. Qed.
 Print Assumptions c03_setop_arity_kept_refuted.
 
+(* ---- (b'') column identity.  Section Cid of Model/Sorts.v runs the same inference on sort keys that are lists of (column id,
+   descending): redirect_sorts at every From, the widening, fresh ids + cid_redirects for the added columns in the first
+   instance that reads the CTE.  It is compared with the code at that level (hook 366a622: emitted Sorts, Selects, redirects,
+   id generator).  Forgetting the ids gives exactly the kind-level run the theorems above are about: *)
+Theorem c03_cid_inference_refines_kind_level : forall p ctes rds s,
+  Sorts.run (list bool) SortsProofs.is_nil [] (map SortsProofs.erase_cte ctes) (Sorts.erase_st s) (map Sorts.erase_item p)
+  = (Sorts.erase_st (fst (Sorts.crun ctes rds s p)), map Sorts.erase_item (snd (Sorts.crun ctes rds s p))).
+Proof. exact crun_refines_run. Qed.
+Print Assumptions c03_cid_inference_refines_kind_level.
+
+(* the sorting a CTE hands to its reader is re-targeted column by column and keeps its directions; a column the reading instance
+   has no redirect for keeps the id it has INSIDE the CTE (the situation behind C07-N1 / F46 / F24: the ORDER BY then names the
+   column by whatever it is called in there) *)
+Theorem c03_redirect_sorts_spec : forall rd k,
+  map snd (Sorts.redirect_sorts rd k) = map snd k /\
+  forall c d, In (c, d) k -> In (Sorts.redirect_cid rd c, d) (Sorts.redirect_sorts rd k).
+Proof. exact redirect_sorts_spec. Qed.
+Print Assumptions c03_redirect_sorts_spec.
+Theorem c03_redirect_cid_unmapped : forall rd c, (forall p, In p rd -> fst p <> c) -> Sorts.redirect_cid rd c = c.
+Proof. exact redirect_cid_unmapped. Qed.
+Print Assumptions c03_redirect_cid_unmapped.
+
+(* `let p0 = (from t | sort {-id} | select {id, b})` / `from p0 | filter b > 0 | take 2 | select {b}` (ids from the real call): p0's
+   sorting [(0, desc)] reaches the main query unredirected -- instance 0 has no redirect for column 0 -- and is emitted in front of
+   the take as it is *)
+Example c03_ex_unredirected_inherited_sort :
+  let '(_, _, o, _) := Sorts.fold_query [(0, 1); (1, 0)]%nat [(0%nat, []); (1%nat, [])] 5%nat
+      [(1%nat, [CSelect [0; 1]%nat; CFrom 0%nat 1%nat; CSort [(0%nat, true)]])]
+      [CSelect [4%nat]; CFrom 1%nat 0%nat; COther; CTake true []] in
+  o = [CSelect [4%nat]; CFrom 1%nat 0%nat; COther; CSort [(0%nat, true)]; CTake true []].
+Proof. vm_compute. reflexivity. Qed.
+
 (* ---- (c) resolver side: model of the Flattener (semantic/resolver/flatten.rs as of fixes 8f24a64, 592b6f8, 8d54bf7,
    f809321), compared with the implementation's RQ (Take.sort, Compute.window.sort, sizes of the partitions, surviving
    Sort transforms) on every generated program.  Whatever sorts are dropped in front of a group, every take and every
